@@ -307,7 +307,7 @@ def _dict_get(ex, st, self, args, kwargs, node):
         ex.assume_wf_read(st, val)
     if isinstance(val, VRef):
         if isinstance(dflt, VNone):
-            return VRef(val.cls, z3.If(has, val.e, 0), True)
+            return VRef(val.cls, val.e, True)  # absent keys map to 0 (representation invariant of ref-valued dicts)
         return v_ite(has, val, dflt)
     return v_ite(has, val, dflt)
 
@@ -325,6 +325,8 @@ def _dict_pop(ex, st, self, args, kwargs, node):
     if len(args) == 1:
         ex.oblige(st, has, f"key-present@{node.lineno}:{ast.unparse(node)[:50]}", kind="exception", line=node.lineno)
     ke = ex.to_elem(args[0], self.kty)
+    if isinstance(self.vty, TRef):
+        self = VDict(self.kty, self.vty, self.keys, z3.Store(self.m, ke, 0), self.default)
     nk = z3.Const(fresh_name("keys"), self.keys.sort())
     x = z3.Const(fresh_name("x"), elem_sort(self.kty))
     a, b = z3.Ints(fresh_name("a") + " " + fresh_name("b"))
@@ -499,3 +501,25 @@ def _getcwd(ex, st, args, kwargs, node):
 
 
 CallMixin.LIB_ALIASES.update({"os.path.join": "os.path.join", "os.path.isdir": "os.path.isdir"})
+
+
+# ---------------------------------------------------------------- time (opaque instants / naive datetimes)
+clock_now = z3.Function("clock_now", z3.IntSort(), z3.IntSort())
+dt_fromtimestamp = z3.Function("dt_fromtimestamp", z3.IntSort(), z3.IntSort())
+
+
+@lib("datetime.datetime.now")
+def _dt_now(ex, st, args, kwargs, node):
+    ex.assumed.add("library: datetime.now() returns the current local time (a fresh value per call)")
+    return VOpaque("datetime", z3.Int(fresh_name("now")))
+
+
+@lib("datetime.datetime.fromtimestamp")
+def _dt_fromts(ex, st, args, kwargs, node):
+    ex.assumed.add("library: datetime.fromtimestamp(t) is the naive local time of instant t")
+    return VOpaque("datetime", dt_fromtimestamp(ex.as_int(args[0])))
+
+
+@lib("os.path.getmtime")
+def _getmtime(ex, st, args, kwargs, node):
+    return VInt(SP.fs_mtime(st.fs, sval(ex, st, args[0], node).e))
